@@ -76,6 +76,8 @@ BLeaves == {Lit("true", TRUE), Lit("false", FALSE), Var("p", TRUE), Var("q", FAL
 Atoms == BLeaves \cup {Bin(o, x, y) : o \in Rels, x \in ArSmall, y \in ArSmall}
 BOps == {"and", "or", "xor", "imp", "eq", "neq"}
 IsArith(t) == IF t[1] \in {"lit", "var"} THEN t[2] \notin {"true", "false", "p", "q"} ELSE t[1] \in {"neg", "add", "sub", "mul", "div"}
+RECURSIVE XorOperands(_)
+XorOperands(t) == IF t[2][1] = "xor" THEN Append(XorOperands(t[2]), t[3]) ELSE <<t[2], t[3]>>
 RECURSIVE BEval(_)
 BEval(t) ==
   CASE t[1] \in {"lit", "var"} -> t[3]
@@ -84,7 +86,9 @@ BEval(t) ==
     [] t[1] \in {"eq", "neq"} -> IF IsArith(t[2]) THEN RelVal(t[1], Eval(t[2]), Eval(t[3])) ELSE (IF t[1] = "eq" THEN BEval(t[2]) = BEval(t[3]) ELSE BEval(t[2]) # BEval(t[3]))
     [] t[1] = "and" -> BEval(t[2]) /\ BEval(t[3])
     [] t[1] = "or" -> BEval(t[2]) \/ BEval(t[3])
-    [] t[1] = "xor" -> BEval(t[2]) # BEval(t[3])
+    \* a chain 'x ^ y ^ z' is ONE n-ary exactly-one in RIDDLE (the grammar reads expr ('^' expr)+), not nested binary xors:
+    \* the operands of the unparenthesised left spine are counted together
+    [] t[1] = "xor" -> LET ops == XorOperands(t) IN Cardinality({i \in DOMAIN ops : BEval(ops[i])}) = 1
     [] t[1] = "imp" -> BEval(t[2]) => BEval(t[3])
 BD1 == Atoms \cup {Un("not", x) : x \in BLeaves}
 BAtomsFew == BLeaves \cup {Bin("lt", Var("a", <<2, 1>>), Var("b", <<3, 1>>)), Bin("geq", Var("a", <<2, 1>>), Lit("2.0", <<2, 1>>)),
